@@ -350,7 +350,10 @@ theorem rloopQB_goodL (run : St → Res) (hrun : ∀ s, Good s (run s)) (runElse
   unfold rloopQB
   cases cmpPath s.c.vars s.c.chQB ls.src with
   | none => intro hs hf; simp [ok, hs] at hf
-  | some p => exact rloopWith_goodL run hrun runElse helse { ls with src := p } s
+  | some p =>
+    intro hs hf
+    have := rloopWith_goodL run hrun runElse helse { ls with src := p } { s with c := { s.c with err := none } } hs hf
+    exact this
 
 theorem loopNode_good (loop : St → Res) (hl : ∀ s, GoodL s (loop s)) (s : St) : Good s (loopNode loop s) := by
   intro hs hf
